@@ -9,9 +9,12 @@ InitAll == {WithTarget, Sentinels, TargetIsFile}
 InitPlain == {WithTarget, Sentinels}
 
 PlainNames == { <<"a">>, <<"b">>, <<"f", "DOT", "x">> }
-PlainNames2L == { <<"a">>, <<"L">> }
+\* an over-long name, and a valid name that is ".." once its trailing blank is dropped
+PlainNames2L == { <<"a">>, <<"L">>, <<"DOT", "DOT", "SP">> }
 ExtsQ == { {}, {<<"DOT", "x">>} }
 PlainNamesL == { <<"a">>, <<"b">>, <<"f", "DOT", "x">>, <<"L">> }
+\* chains four deep: a valid name that is ".." once trailing blanks are dropped, and ".." itself
+DeepNames == { <<"a">>, <<"DOT", "DOT", "SP">>, <<"DOT", "DOT">> }
 HostileNames == { <<"a">>, <<"DOT">>, <<"DOT", "DOT">>, <<"a", "SL", "b">>, <<"SL", "a">>, <<"DOT", "DOT", "SL", "a">> }
 \* dry-run: names that become files under some extension list, and hostile names
 DryNames == { <<"a">>, <<"f", "DOT", "x">>, <<"DOT", "DOT">>, <<"a", "SL", "b">>, <<"DOT">> }
